@@ -88,9 +88,11 @@ def align_to_64k(lines, rng, sit):
     cum = 0
     boundary = 65536
     i = 0
+    padded = -1  # a record longer than 64 KiB crosses several boundaries: its predecessor is padded once
     while i < len(lines):
         ln = len(lines[i].encode()) + 1
-        if cum < boundary < cum + ln and i > 0:
+        if cum < boundary < cum + ln and i > 0 and padded != i:
+            padded = i
             gap = boundary - cum
             cr = lines[i - 1].endswith("\r")
             body = lines[i - 1][:-1] if cr else lines[i - 1]
